@@ -15,7 +15,7 @@ CORE_NOTE = ("Trusted: the kernel's epoll/eventfd semantics, the harness' instru
 CLAIMED = {
     "C01": ("TLA+ contract monitor (LoopContract) checked by TLC on LoopCore's bounded state space and on traces of the real crate (TLC trace validation); scenarios from TLC behaviours + seeded generator",
             "Bounded model checking of the slot/generation/sub-token design plus trace validation of real executions: every callback invocation of every recorded execution is attributed to a live registration and a real cause by the TLA+ monitor.", "4/C01", CORE_NOTE),
-    "C02": ("TLA+ contract monitor: pending-cause set sampled at the wait, checked at the end of each Ok dispatch, by TLC on LoopCore and on real traces; plus generated channel schedules of real threads under the step scheduler (a message queued by a blocked sender is a pending cause)",
+    "C02": ("TLA+ contract monitor: pending-cause set sampled at the wait, checked at the end of each Ok dispatch, by TLC on LoopCore and on real traces; plus generated channel schedules of real threads under the step scheduler (a message queued by a blocked sender is a pending cause); free-running send / ping / wake races (drive_hammer) judged by ChanHammerTrace",
             "Model checking + trace validation: the set of sources with a pending cause when the wait starts is computed by the monitor from the driver's own actions and compared with the callbacks of that dispatch.", "4/C02", CORE_NOTE),
     "C05": ("TLA+ contract monitor for timer armings (never early / order / once per arming / cancel final / heap residue) on LoopCore and on real traces",
             "Model checking + trace validation with integer microsecond time; arming identities are ghost state of the monitor.", "4/C05", CORE_NOTE),
@@ -43,7 +43,7 @@ CONC_NOTE = ("Trusted: eventfd / epoll / std::sync::mpsc / async-task / polling:
 CLAIMED.update({
     "C03": ("TLA+ protocol model PingProto (one action per yield-to-yield step of a thread) model-checked by TLC; its schedules replayed on real threads by the step scheduler and compared event-for-event; all recorded traces validated by TLC against ConcContract; sequential histories through LoopContract; free-running ping race (drive_hammer) judged by ChanHammerTrace",
             "Model checking of every interleaving of the ping protocol for the configured scripts + schedule replay on real eventfds + trace validation.", "4/C03", CONC_NOTE),
-    "C04": ("TLA+ protocol model ChanProto (mpsc queue, ping, drop order; variants as TLC attack schedules) and the channel kind of LoopCore (bounded batch with self re-ping) model-checked by TLC; their schedules / behaviours replayed on the real crate; contract ConcContract (order / exactly-once / single Closed / no stranded message / blocking send completes) validated by TLC on traces of real threads under the step scheduler, including free-running bursts in which a sender really blocks on a full channel while the loop dispatches at full speed; sequential histories (also beyond the real limit of 1024 per dispatch) through LoopContract",
+    "C04": ("TLA+ protocol model ChanProto (mpsc queue, ping, drop order; variants as TLC attack schedules) and the channel kind of LoopCore (bounded batch with self re-ping) model-checked by TLC; their schedules / behaviours replayed on the real crate; contract ConcContract (order / exactly-once / single Closed / no stranded message / blocking send completes) validated by TLC on traces of real threads under the step scheduler, including free-running bursts in which a sender really blocks on a full channel while the loop dispatches at full speed, and a free-running race driver (drive_hammer: 10^5 rounds, after send() has returned one more dispatch must deliver; judged by ChanHammerTrace); sequential histories (also beyond the real limit of 1024 per dispatch) through LoopContract",
             "Model checking of the channel protocol for the configured scripts + schedule replay + trace validation of scheduled executions of channel() and sync_channel(0,1,2) with batch limits 1..3 and at the real limit.", "4/C04", CONC_NOTE),
     "C10": ("TLA+ protocol model ExecProto (enqueue / notified swap / eventfd write / flag clear / dequeue steps) model-checked by TLC, its schedules and the TLC attack schedule of the wrong variant replayed on real waker threads under the step scheduler; executor and StreamSource kinds of LoopCore (run queue, notified flag, batch limit with self re-ping, futures dropped with the executor; stream polled until Pending) model-checked and their behaviours replayed event for event; all traces validated by TLC against ConcContract / LoopContract; free-running wake race (drive_hammer) judged by ChanHammerTrace",
             "Model checking of the wake protocol for the configured scripts and of executor/stream histories (schedule, wake, complete, disable, enable, remove, re-insert, scheduling from callbacks and futures, batch limits 1..3 through the hook) + schedule replay + trace validation.", "4/C10", CONC_NOTE),
